@@ -201,7 +201,7 @@ PROPS = {
 
 META = {
     "C01": {
-        "engine": "E1-hv (+E3 sanitizers, cachegrind in thorough)",
+        "engine": "E1-hv, E2-lsp (+E3 sanitizers, cachegrind in thorough)",
         "design_ref": "DESIGN.md §5 C01",
         "technique": "runtime monitoring: crash/abort/CPU-time hang monitors over a generated document sweep through every front-end; ASan + cachegrind scaling in thorough",
         "level_text": "Exploration: ~1-2 M documents per quick run (tens of millions thorough) through all 29 front-ends, wrappers, rule configurations and dialects, "
@@ -217,7 +217,7 @@ META = {
         "level_note": "Trusted: the walker (hv/src/tokmon.rs), std's f64 parser as the decimal reference, hook H3 reporting the real token vector.",
     },
     "C03": {
-        "engine": "E1-hv (+Miri shard in thorough)",
+        "engine": "E1-hv, E2-lsp (+Miri shard in thorough)",
         "design_ref": "DESIGN.md §5 C03",
         "technique": "runtime monitoring: differential check of Suggestion::apply against an independent splice, exhaustive on a finite sub-space and on every lint the sweep produces",
         "level_text": "Exploration with an exhaustively enumerated finite sub-space: every (text<=5 over 3 letters, span, suggestion) triple, plus span-bounds and splice checks on every "
@@ -225,7 +225,7 @@ META = {
         "level_note": "Trusted: the 15-line reference splice. The exhaustive part is complete only for the stated alphabet/length bounds.",
     },
     "C04": {
-        "engine": "E1-hv",
+        "engine": "E1-hv, E2-lsp",
         "design_ref": "DESIGN.md §5 C04",
         "technique": "runtime monitoring: generated programs/markup with ground-truth segment roles; interval-arithmetic oracle over the real token stream and spell-check lints",
         "level_text": "Exploration over generated files: per front-end grammar (22 comment languages, Markdown x2, HTML, Typst, Literate Haskell, git-commit, plain) assembling prose, code, "
@@ -233,7 +233,7 @@ META = {
         "level_note": "Trusted: the generators' own bookkeeping of offsets. Constructs the statement does not speak about are 'optional' (neither required nor forbidden).",
     },
     "C05": {
-        "engine": "E1-hv (hooks H1/H2; TSan build in thorough)",
+        "engine": "E1-hv, E2-lsp (hooks H1/H2; TSan build in thorough)",
         "design_ref": "DESIGN.md §5 C05",
         "technique": "runtime monitoring: step-wise differential of a long-lived linter against a fresh one over cache-hammering histories; thread and process repetition; ThreadSanitizer in thorough",
         "level_text": "Exploration of histories and schedules: ~1000 histories x 60 steps per quick run on LintGroup and on the JS-facing linter (one instance serving plain text and Markdown), "
@@ -241,7 +241,7 @@ META = {
         "level_note": "Trusted: a fresh LintGroup as the reference for 'what the lints should be'. Cache-key collisions are out of reach.",
     },
     "C06": {
-        "engine": "E1-hv",
+        "engine": "E1-hv, E2-lsp",
         "design_ref": "DESIGN.md §5 C06",
         "technique": "runtime monitoring: exhaustive dictionary pass against an independent affix-expansion reference; non-word and suggestion oracles on the real spell checker",
         "level_text": "Exploration with an exhaustive pass: all ~132 k spellings x 4 dialects are linted (no spelling lint allowed), case variants and sentence frames sampled, tens of thousands "
@@ -279,7 +279,7 @@ META = {
         "level_note": "Trusted: strace -f sees all syscalls of the process tree. The dependency-set clause is not decidable by this family.",
     },
     "C11": {
-        "engine": "E1-hv (hook H1)",
+        "engine": "E1-hv, E2-lsp, harper-cli (hook H1)",
         "design_ref": "DESIGN.md §5 C11",
         "technique": "runtime monitoring: singles-vs-combination multiset law, overlay/merge algebra, rule attribution through a hook, JS-facing overlay path",
         "level_text": "Exploration over configurations: thousands of random {on, off, unset, null, unknown} assignments for the algebraic laws, and ~1000 documents x 24 configurations for the law "
@@ -294,7 +294,7 @@ META = {
         "level_note": "Trusted: nothing but the relation itself; P is generated to contain condensing events, URLs, e-mails, numbers at its end, D to start with digits / @ / : / quotes.",
     },
     "C14": {
-        "engine": "E1-hv",
+        "engine": "E1-hv, E2-lsp, two processes",
         "design_ref": "DESIGN.md §5 C14",
         "technique": "runtime monitoring: ignore-list model with observable lint identity; edit histories; export/import equivalence",
         "level_text": "Exploration of histories: ~15 k documents (quick) with twin lints, random ignore subsets, five kinds of distant edits each; every disappearance must be explained by "
@@ -317,7 +317,7 @@ META = {
         "level_note": "Trusted: the String-based API behaves natively as under wasm32 (same Rust code, no JS glue); JsValue methods are not reachable.",
     },
     "C17": {
-        "engine": "E1-hv",
+        "engine": "E1-hv, E2-lsp",
         "design_ref": "DESIGN.md §5 C17",
         "technique": "runtime monitoring: integer-arithmetic ordinal reference over an exhaustive range and stratified random integers",
         "level_text": "Exploration with an exhaustive range: n = 0..100 000 x 4 suffixes x 4 letter cases (+ sentence frames) completely, and 1 M (quick) / 100 M (thorough) random n < 2^53.",
@@ -331,7 +331,7 @@ META = {
         "level_note": "Trusted: Unicode case folding of std for 'differs only in case'.",
     },
     "C19": {
-        "engine": "E1-hv (E2 sessions in thorough)",
+        "engine": "E1-hv, E2-lsp",
         "design_ref": "DESIGN.md §5 C19",
         "technique": "runtime monitoring: round-trip and append-composition monitor on records made by the real producer, in memory, through an append-mode file and through the JS API",
         "level_text": "Exploration of inputs and append histories: ~30 k record lists per quick run.",
